@@ -6,7 +6,11 @@ TECHNIQUE = ('resolved interface analysis: handler-name resolution against built
              'finite length-domain dataflow for argument lists, role table for injected integer parameters; '
              'USCORE: the separator-stripping loops of the float() parsers are extracted as finite automata (own C statement interpreter) and the product with the '
              'strtod grammar and CPython\'s separator rule is explored completely; NONEARG: path enumeration of the injection helper per call site with the literal '
-             'table values (whitelisted evaluator), writer/reader agreement with the consumer\'s presence test and C conditional template')
+             'table values (whitelisted evaluator), writer/reader agreement with the consumer\'s presence test and C conditional template; '
+             'tree-builder interpreter (rules/pC01.py TB): every method handler is run per number of arguments on symbolic nodes and the emitted C call (name, argument list, '
+             'declared return type) is tabulated; reference tables from the library / C-API reference; '
+             'LinSym (rules/sC13.py): symbolic execution of C helpers on integer linear forms with path conditions, infeasible paths pruned by Fourier-Motzkin elimination, '
+             'candidate and reference (CPython\'s algorithm in the same C subset) compared path pair by path pair; index-status path enumeration (engine of C15) for list.pop(i)')
 DECIDES = ('V1h: every _handle_* optimisation handler names an existing builtin function / method of a builtin type; '
            'I3: at every typed helper call site the number of arguments passed equals the C arity and the declared argument/return categories and exception value agree with the C prototype; '
            'I4: every BuiltinFunction/BuiltinMethod table row agrees with the C prototype of its C function; '
@@ -17,11 +21,28 @@ DECIDES = ('V1h: every _handle_* optimisation handler names an existing builtin 
            '`_`, `.`, `e`, `E` or at the end — exactly the texts for which CPython raises ValueError (the exponent-sign rows and the non-ASCII copy loop were defects, repaired: rule C13-USCORE-PENDING keeps guarding them); '
            'NONEARG: for every call site of an argument-injection helper: where a literal None selects the default a run-time None does too, the C value stored for the '
            'run-time None equals the statically injected default, survives the consumer\'s own presence test (truthiness vs `is not None`), and the consumer\'s C '
-           'conditional selects it exactly when the argument is None.')
+           'conditional selects it exactly when the argument is None; '
+           'POPIX: in the Py_ssize_t-index container helpers (list.pop(i) fast path) items are only touched after a successful bounds test of a wrapped index, and a rejected '
+           'or length-added index reaches the generic (self-wrapping) fallback only in its original form; '
+           'MINMAX (= C01-MINMAX) and ANYALL: the trees built for min/max and any/all(genexpr) have the comparison / early-exit semantics of the builtins for every outcome; '
+           'HTAB: for every _handle_simple_method_* handler and 1..5 arguments: omitted arguments are filled with the method\'s default (start 0, end PY_SSIZE_T_MAX, maxsplit / '
+           'count -1, sep NULL, dict default None), direction constants of startswith/endswith/find/rfind agree with the C-API reference, NULL is only passed to a parameter '
+           'the C helper tests (or forwards to one that does), a helper declared to return a status code replaces a value-returning method only when the result is unused, '
+           '`is_<attr>` flag arguments have the polarity of the attribute they are computed from; '
+           'TABNAME: BuiltinMethod rows and per-type C name selections name the helper of that method / type (the helper calls the method of that name, or C-API naming); '
+           'WITHERR: PyErr_Occurred() is consulted on the NULL path of PyDict_GetItemWithError / _PyDict_GetItem_KnownHash; '
+           'SLICE: __Pyx_PyBytes_SingleTailmatch equals CPython\'s tailmatch() and __Pyx_PyUnicode_Substring equals slicing for ALL start / end / length values (linear-form '
+           'path pairs), all memory accesses inside the object; LISTPOP: the list.pop fast paths decrement the size only for a provably non-empty list, return element n-1 / '
+           'the wrapped index, move the tail by one; TRISTATE: a helper raises its own exception only where the latest three-valued C-API result cannot be -1.')
 NOT_DECIDED = ('that each C helper agrees with the builtin it replaces on every argument value (known findings: slice bounds beyond Py_ssize_t raise OverflowError, '
                'ord("") raises ValueError).  USCORE models the copy loop only: the callers\' whitespace stripping, the inf/nan pre-filter (assumed to reject a text '
                'whose first character after a sign is `_`), buffer sizes and loop bounds (see FINDING_2) and strtod itself are not decided.  NONEARG decides the '
-               'special_none_cvalue channel of the _inject_* helpers, not the conversion function that handles non-None values.')
+               'special_none_cvalue channel of the _inject_* helpers, not the conversion function that handles non-None values.  HTAB models coercion / none-check wrappers '
+               'as identity, covers the handlers the tree-builder interpreter can run (6 handler/arity combinations give up and are listed as info) and a frozen reference table '
+               'for 13 methods; _handle_simple_function_* handlers that query the symbol table (isinstance, len of C types ...) are not run: brainstormed mutants isinstance-exact, '
+               'isinstance-and (which type check / which boolean operator joins the per-type tests) and ord-length-guard (guard of a constant folding) are left unreported.  '
+               'SLICE / LISTPOP / TRISTATE decide the helpers named in their rule texts; CPython API functions called by them are trusted.  A Fourier-Motzkin "feasible" answer is '
+               'rational: a report is only made with an integer witness, a proof of agreement is exact.')
 ASSUMPTIONS = ['PyOS_string_to_double consumes exactly  [+-]? (D+ (. D*)? | . D+) ([eE] [+-]? D+)?  of an ASCII text without underscores (CPython pystrtod.c)',
                'float() of CPython accepts an underscore only between two digits (_Py_string_to_number_with_underscores)',
                'the callers of the copy loops reject a text whose first character after an optional sign is neither a digit nor `.` (the *_inf_nan pre-filters)']
@@ -38,6 +59,20 @@ MUTATIONS = [   # (file, single edit on a scratch copy, rule that reported it)
     ('Cython/Compiler/Optimize.py', "_inject_int_default_argument: the store statement replaced by pass", 'ANALYSIS-ERROR (channel vanished, exit 2)'),
     ('Cython/Compiler/PyrexTypes.py', "_assign_from_py_code: (source_code, special_none_cvalue, convert_call) -> (source_code, convert_call, special_none_cvalue)", 'C13-NONEARG'),
     ('Cython/Compiler/PyrexTypes.py', "_assign_from_py_code: template `(__Pyx_Py_IsNone(%s) ? ...` -> `(!__Pyx_Py_IsNone(%s) ? ...`", 'C13-NONEARG'),
+    # fourth round: every mutant below is stored with its patch and outcome under mutants/C13/<name>/ (replayed by the thorough tier)
+    ('Cython/Utility/Optimize.c', "seed C13d, c-popindex-nowrap, c-popindex-fallback-wrapped", 'C13-POPIX'),
+    ('Cython/Compiler/Optimize.py', "anyall-result-swapped, anyall-negation-swapped / minmax-operands", 'C13-ANYALL / C13-MINMAX'),
+    ('Cython/Compiler/Optimize.py', "dictget-null-default, dictpop-ignore-inverted, pop-signed-flag, tailmatch-direction, bytes-tailmatch-direction, find-direction, "
+                                    "split-default-maxsplit, count-default-end, replace-default-count", 'C13-HTAB'),
+    ('Cython/Compiler/Builtin.py, Optimize.py', "table-keys-values, table-set-add-discard, table-reverse-sort, len-wrong-type-func", 'C13-TABNAME'),
+    ('Cython/Utility/Optimize.c, ObjectHandling.c', "c-dictget-error-swallowed, c-globals-lookup-error", 'C13-WITHERR'),
+    ('Cython/Utility/StringTools.c', "c-bytes-tailmatch-{clamp,endclamp,direction}, c-substring-{stop-clamp,start-noclamp}", 'C13-SLICE'),
+    ('Cython/Utility/Optimize.c', "c-listpop-empty, c-listpop-item, c-popindex-shift-count, c-popindex-no-shrink", 'C13-LISTPOP'),
+    ('Cython/Utility/Optimize.c', "c-setremove-error-as-missing", 'C13-TRISTATE'),
+    ('not reported (declined)', "isinstance-exact, isinstance-and, ord-length-guard: see NOT_DECIDED", 'none'),
+    ('behaviour-preserving (all silent)', "ok-anyall-rewrite, ok-popindex-rewrite (conditional expression, early-return fallback), ok-tailmatch-kwargs, ok-dictget-rewrite "
+                                          "(else-if form), ok-len-table-order, ok-bytes-clamp-rewrite (nested ifs), ok-listpop-rewrite (size in a local), ok-setremove-rewrite "
+                                          "(!found / found == -1), sum-operand-order (an edit inside the name-mangled, never dispatched __handle_simple_function_sum)", 'silent'),
     ('behaviour-preserving (all silent)',
      "bytes copy rewritten with renamed locals, `||`, early `return NULL` instead of the sticky flag and `if (chr != '_') buffer++`; unicode copy with a "
      "three-valued state variable instead of two gotos; call sites passing the int 0 instead of \"0\" (helper applies str()); consumer testing "
@@ -49,4 +84,4 @@ def run(ctx):
     # sC13.rule_uscore(ctx, pending=True) checks the constructs of FINDING_1 (float("1e+_5"), the non-ASCII copy loop)     # pending finding
     return [handlers.rule_V1h(ctx), typed.rule_I3(ctx), typed.rule_I4(ctx), iface.rule_I5(ctx), iface.rule_I6(ctx),
             handlers.rule_arg_guards(ctx), trn.rule_TRN2(ctx), trn.rule_TRN2b(ctx),
-            sC13.rule_uscore(ctx), sC13.rule_uscore(ctx, pending=True), sC13.rule_nonearg(ctx)]
+            sC13.rule_uscore(ctx), sC13.rule_uscore(ctx, pending=True), sC13.rule_nonearg(ctx), sC13.rule_popix(ctx), sC13.rule_minmax(ctx), sC13.rule_anyall(ctx), sC13.rule_htab(ctx), sC13.rule_tabname(ctx), sC13.rule_witherr(ctx), sC13.rule_slice(ctx), sC13.rule_listpop(ctx), sC13.rule_tristate(ctx)]
